@@ -121,6 +121,10 @@ def block_kws(case, b):
     """keywords of a block; unless the case asks for bare wells, every well introduced in the block that gets no
     WCON* keyword there receives a default one (a well without any control mode cannot be restarted: known finding)"""
     kws = list(b["kws"])
+    if case["half"] == "B":
+        # GCONSALE is outside the statement's list and not stored in restart files; it turns its group into a production
+        # group as a side effect, which would show up under the group attributes
+        kws = [k for k in kws if not k.startswith("GCONSALE")]
     if case.get("quirk") != "drvdt":
         kws = [k for k in kws if not k.startswith("DRVDT")]
     if case.get("quirk") != "zero_limit":
@@ -869,6 +873,8 @@ def key_B(attr, x, y, case):
     if attr in ("group.prod.cmode", "group.prodControls.cmode", "group.prod.controls") or \
             (re.match(r"group\.prodControls\.\w+_target$", attr) and x == "<inactive>"):
         return "B:group.prod.cmode"
+    if attr in ("group.inj.cmode", "group.injControls.cmode"):
+        return "B:group.inj.cmode"
     if attr.startswith("wlists"):
         return "B:wlists"
     if attr == "well.seg.inlets.len":
@@ -983,7 +989,9 @@ def norm_state(s):
                 if not c["has"][i]:
                     c[k] = "<inactive>"
             if not c["prediction_mode"]:
+                # history matching injector: observed rate, control mode and BHP limit define the well
                 c["has"] = "<history>"
+                c["reservoir_rate"] = c["thp_limit"] = "<history>"
             if w["status"] != 1 or c["cmode"] == I_UNDEF:
                 c["cmode"] = "<not open or undefined>"
     return s
